@@ -58,19 +58,21 @@ def _floors(nontrivial, by_type, by_tag, out_own, out_sa, engine, placeholders, 
     return f
 
 
+# the 'fallback' floor is 0 since fix 12ca32a: the only statements the renderer declined for these positions were
+# oracle / Snowflake single-row INSERTs, which now render; the class is still counted when it occurs
 # <= 1/3 of what a run produces (bool / null are small finite sets: 2 values x 7 positions per shard + seeds)
 FLOORS = {
     'quick': _floors(6000, {'str': 7000, 'int': 300, 'float': 300, 'bool': 70, 'null': 90, 'date': 280, 'datetime': 280},
                      {'v:quote': 1800, 'v:backslash': 1800, 'v:percent': 1300, 'v:colon': 1300, 'v:semicolon': 1300,
                       'v:dashdash': 450, 'v:slashstar': 80, 'v:newline': 1200, 'v:nul': 500, 'v:non-ascii': 1500,
                       'float:exponent': 150, 'num:negative': 250},
-                     9000, 17000, 8500, 5000, 9000, 1000),
+                     9000, 17000, 8500, 5000, 0, 1000),
     'thorough': _floors(60000, {'str': 75000, 'int': 3000, 'float': 3000, 'bool': 70, 'null': 90, 'date': 3000,
                                 'datetime': 3000},
                         {'v:quote': 20000, 'v:backslash': 20000, 'v:percent': 16000, 'v:colon': 16000,
                          'v:semicolon': 15000, 'v:dashdash': 5000, 'v:slashstar': 900, 'v:newline': 15000, 'v:nul': 6000,
                          'v:non-ascii': 18000, 'float:exponent': 1700, 'num:negative': 3000},
-                        90000, 165000, 80000, 54000, 95000, 11000),
+                        90000, 165000, 80000, 54000, 0, 11000),
 }
 N = {'quick': 1200, 'thorough': 12000}
 EXH_LEN = {'quick': 3, 'thorough': 4}
